@@ -71,6 +71,19 @@ def imf_mean_mass(mb, a):
     return m / n
 
 
+def imf_mass_per_star_below(mb, a, mcut=0.8):
+    """mass in stars lighter than `mcut` (which never leave the main sequence within 14 Gyr), per star of the whole IMF"""
+    def pk(k, s, lo, hi):
+        e = s + k
+        return math.log(hi / lo) if e == 0 else (hi ** e - lo ** e) / e
+    A = [1.0]
+    for i in range(1, len(a)):
+        A.append(A[-1] * mb[i] ** (a[i - 1] - a[i]))
+    n = sum(Ai * pk(1, ai, mb[i], mb[i + 1]) for i, (Ai, ai) in enumerate(zip(A, a)))
+    m = sum(Ai * pk(2, ai, mb[i], min(mb[i + 1], mcut)) for i, (Ai, ai) in enumerate(zip(A, a)) if mb[i] < mcut)
+    return m / n
+
+
 def gen_config(rng, escape=False, small=False, kicks=None, tout=None):
     mb, a = gen_imf(rng)
     cfg = {"m_breaks": mb, "a_slopes": a, "nbins": gen_nbins(rng, len(a), small), "FeH": gen_feh(rng),
@@ -106,8 +119,10 @@ def gen_config(rng, escape=False, small=False, kicks=None, tout=None):
         tmax = max(cfg["tout"])
         frac = rng.uniform(0.05, 0.6)
         kw["esc_norm"] = rng.choice(["N", "M"])
-        # the requested loss stays below 60 % of what the cluster holds (in the quantity that is normalised)
-        scale = cfg["N0"] if kw["esc_norm"] == "N" else cfg["N0"] * imf_mean_mass(mb, a)
+        # the requested loss stays below 60 % of what the cluster can lose (in the quantity that is normalised): for the mass
+        # normalisation that is the mass in stars that never evolve — stellar evolution removes most of the rest on its own, and a
+        # request exceeding what is left drives the mass-normalised rate singular (counts go negative: outside any sensible domain)
+        scale = cfg["N0"] if kw["esc_norm"] == "N" else cfg["N0"] * imf_mass_per_star_below(mb, a)
         cfg["esc_rate"] = -frac * scale / tmax
         if rng.random() < 0.5:
             kw["tcc"] = rng.choice([0.0, tmax * rng.random(), tmax * 2])
